@@ -461,7 +461,7 @@ def corruptions(spec):
     out = []
     if cls in ("MinGenSet", "MinSetCover"):
         if cls == "MinGenSet":
-            for lab, wt in (("a type other than int/float", str), ("a string naming the type", "int")):
+            for lab, wt in (("a type other than int/float", str), ("a string naming the type", "int"), ("bool, a subclass of int", bool)):
                 s = copy.deepcopy(spec)
                 s["kw"]["weight_type"] = wt
                 out.append(("unsupported weight_type (%s)" % lab, s))
@@ -545,6 +545,15 @@ def corruptions(spec):
                     j = [q for q in tgt if s["edges"][q][0] in inner or s["edges"][q][1] in inner][0]
                     s["edges"][j][2]["flow"] += 1
                     out.append(("non-conserving flow, nothing ignored", s))
+                    # an inner node whose incoming side carries 0 and whose outgoing side does not (it is no source: it has in-edges)
+                    s = copy.deepcopy(spec)
+                    vin = [v for v in inner if any(s["edges"][q][1] == v for q in tgt) and any(s["edges"][q][0] == v for q in tgt)]
+                    if vin:
+                        v0 = vin[0]
+                        for q in tgt:
+                            if s["edges"][q][1] == v0:
+                                s["edges"][q][2]["flow"] = 0
+                        out.append(("non-conserving flow, nothing ignored (zero in-flow at an inner node)", s))
                     if kw.get("weight_type", float) is int:
                         # the same imbalance of one unit on a flow of magnitude 2*10^9 (exact integers): relatively tiny, still not a flow
                         s = copy.deepcopy(spec)
@@ -609,7 +618,7 @@ def _corruptions_tail(spec, cls, kw, covers, has_w):
             out.append((lab, s))
     # 10 weight type
     if has_w:
-        for lab, wt in (("a type other than int/float", str), ("a string naming the type", "int")):
+        for lab, wt in (("a type other than int/float", str), ("a string naming the type", "int"), ("bool, a subclass of int", bool)):
             s = copy.deepcopy(spec)
             s["kw"]["weight_type"] = wt
             out.append(("unsupported weight_type (%s)" % lab, s))
